@@ -15,12 +15,15 @@ import (
 
 // script is what one connecting peer does (Model/Register.v: conn).
 type script struct {
-	Reg  string `json:"reg"`  // never | late | close | now
+	Reg  string `json:"reg"`  // never | late | close | now | at (AtMs after connecting, under the time-outs RegT / ReqT)
 	Name string `json:"name"` // bytes, valid UTF-8
 	Idx  string `json:"idx"`
 	Cfg  string `json:"cfg"`  // silent | error | close | reply
 	Mask int32  `json:"mask"` // the raw int32 answered to Configure
 	Sync string `json:"sync"` // ok | error | silent
+	AtMs int    `json:"at_ms,omitempty"`
+	RegT int    `json:"reg_timeout_ms,omitempty"` // the registration time-out configured for the case
+	ReqT int    `json:"req_timeout_ms,omitempty"` // the request time-out configured for the case
 }
 
 // rawObs is what the peer observed (Run/RunRegister.v: reg_obs).
@@ -101,6 +104,9 @@ func (p *rawPlugin) run() {
 		case <-p.closed:
 		case <-p.release:
 		}
+	case "at":
+		// a fixed delay, whatever else happens in the case
+		time.Sleep(time.Duration(p.sc.AtMs) * time.Millisecond)
 	}
 	ctx, cancel := context.WithTimeout(context.Background(), 120*time.Second)
 	defer cancel()
